@@ -278,6 +278,10 @@ function PPContext.inject_value(self, value, dest, destpos, orignode)
   end
 end
 
+-- Injection points of the hygienized functions of each statement list (a side table, so that the
+-- statement list, which is an AST node, gets no extra field).
+local statnodes_cursors = setmetatable({}, {__mode = 'k'})
+
 --[[
 Injects statement determined by `node` into the current statements being processed.
 The `node` be automatically cloned (deep copied), unless `noclone` is set true.
@@ -291,6 +295,17 @@ function PPContext:inject_statement(node, noclone)
     local addindex = statnodes.addindex
     statnodes.addindex = addindex + 1
     table.insert(self.statnodes, addindex, node)
+    -- the injection points of the other hygienized functions at or after this position moved
+    local cursors = statnodes_cursors[statnodes]
+    if cursors then
+      local curcursor = cursors.current
+      for i=1,#cursors do
+        local cursor = cursors[i]
+        if cursor ~= curcursor and cursor.index >= addindex then
+          cursor.index = cursor.index + 1
+        end
+      end
+    end
   else -- just append
     self.statnodes[#statnodes+1] = node
   end
@@ -350,12 +365,21 @@ function PPContext:hygienize(func)
   local funcscope = context.state.funcscope
   local checkpoint = scope:make_checkpoint()
   local statnodes = self.statnodes
-  local addindex = #statnodes+1
+  local cursor = {index = #statnodes+1} -- where this function injects, kept up to date by add_statnode
+  local cursors = statnodes_cursors[statnodes]
+  if not cursors then
+    cursors = {}
+    statnodes_cursors[statnodes] = cursors
+  end
+  cursors[#cursors+1] = cursor
   local pragmas = context.pragmas
   return function(...)
     -- restore saved state
-    local oldaddindex = statnodes.addindex
+    local oldaddindex, oldcursor = statnodes.addindex, cursors.current
+    if oldcursor then oldcursor.index = oldaddindex end
+    local addindex = cursor.index
     statnodes.addindex = addindex
+    cursors.current = cursor
     self:push_statnodes(statnodes)
     scope:push_checkpoint(checkpoint)
     local oldscope = context.scope
@@ -373,8 +397,10 @@ function PPContext:hygienize(func)
     if addindex ~= statnodes.addindex then -- new statement nodes were added
       -- must delay resolution to fully parse the new added nodes later
       oldscope:find_shared_up_scope(scope):delay_resolution()
-      addindex = statnodes.addindex
     end
+    cursor.index = statnodes.addindex
+    cursors.current = oldcursor
+    if oldcursor then oldaddindex = oldcursor.index end
     statnodes.addindex = oldaddindex
     return table.unpack(rets)
   end
